@@ -54,7 +54,9 @@ fn times_for(ts: &[Timing]) -> Vec<f32> {
     let far = ts.iter().filter_map(|t| t.total()).fold(0.0f64, f64::max) as f32 + 1.0;
     // the last-but-one time lands exactly on the 50% keyframe position of the first pass
     // the first time lies before the start; with no delay it is negative zero (a valid time equal to 0)
-    vec![if dmin == 0.0 { -0.0 } else { dmin / 2.0 }, if dmax > dmin { (dmin + dmax) / 2.0 } else { t.delay + 0.3125 * t.cycle }, dmax + 0.8125 * t.cycle, dmax + 1.3125 * t.cycle, t.delay + if t.reverse { 0.25 } else { 0.5 } * t.cycle, far.max(dmax + 2.6875 * t.cycle)]
+    // the second time is EXACTLY the end of the first cycle (the hold-at-100% instant): queried after a time
+    // inside the second cycle it must still show the held end value
+    vec![if dmin == 0.0 { -0.0 } else { dmin / 2.0 }, t.delay + t.cycle, if dmax > dmin { (dmin + dmax) / 2.0 } else { t.delay + 0.3125 * t.cycle }, dmax + 0.8125 * t.cycle, dmax + 1.3125 * t.cycle, t.delay + if t.reverse { 0.25 } else { 0.5 } * t.cycle, far.max(dmax + 2.6875 * t.cycle)]
 }
 
 type Meta = (u32, u32, u32, Repeat);
@@ -282,7 +284,7 @@ pub fn run(run: Run) -> ! {
     cov.insert("traces_validated_against_impl".into(), json!(acc.sequences));
     cov.insert("evaluations".into(), json!(acc.updates));
     cov.insert("distinct_nontrivial".into(), json!(acc.sequences));
-    cov.insert("rule".into(), json!(format!("{} plain timelines ({} keyframe lists from T(2),T(3) x 6 timings) 2 timelines with 17 / 33 keyframes, and {} merged timelines (two components with different delays/timings); objects X and Y (clone slot); alphabet of {} operations: update(obj, target in {{fresh sentinel, dirty, previous result}}, 6 times spanning before-start (negative zero when there is no delay) / between the component delays / first pass / second pass-or-after-end / exactly on the 50% keyframe position / far), start_with(obj, 3 values), Y=X.clone(), X=Y.clone(), Y.clone_from(&X), X.clone_from(&Y); ALL sequences of length {} (stateless DFS, state = history); oracle: every update equals the memo entry (latest start value of that object, time) computed on a pristine twin into a fresh target, untouched fields keep the input's bits; delay/cycle/duration/repeat never change; non-trivial = complete sequences", n_single, kfss.len(), objects.len() - n_single, ops.len(), depth)));
+    cov.insert("rule".into(), json!(format!("{} plain timelines ({} keyframe lists from T(2),T(3) x 6 timings) 2 timelines with 17 / 33 keyframes, and {} merged timelines (two components with different delays/timings); objects X and Y (clone slot); alphabet of {} operations: update(obj, target in {{fresh sentinel, dirty, previous result}}, 7 times spanning before-start (negative zero when there is no delay) / exactly the end of the first cycle (hold instant) / between the component delays / first pass / second pass-or-after-end / exactly on the 50% keyframe position / far), start_with(obj, 3 values), Y=X.clone(), X=Y.clone(), Y.clone_from(&X), X.clone_from(&Y); ALL sequences of length {} (stateless DFS, state = history); oracle: every update equals the memo entry (latest start value of that object, time) computed on a pristine twin into a fresh target, untouched fields keep the input's bits; delay/cycle/duration/repeat never change; non-trivial = complete sequences", n_single, kfss.len(), objects.len() - n_single, ops.len(), depth)));
     cov.insert("exhaustive".into(), json!(true));
     cov.insert("depth".into(), json!(depth));
     cov.insert("distinct_update_results_capped".into(), json!(acc.distinct_results.len()));
